@@ -1,5 +1,6 @@
 import ZCV.Lemmas.HandlersCall
 import ZCV.Model.LogTemplate
+import ZCV.Model.LogStrFormat
 import ZCV.Model.Resources2
 import ZCV.Model.Validator
 import ZCV.SExp
@@ -309,6 +310,17 @@ def handle (st : DState) : SExp → DState × SExp
          | some (.undefined ns) => .list [.atom "err", .atom "undefined", .list (ns.map .str)]
          | some (.badName n _) => .list [.atom "err", .atom "badname", .str n])
       | _, _ => .list [.atom "bad-request", .atom "hcall"])
+  -- (logsfmt "configured format text") → (acceptsStrFormat loadCheckStrFormat) of the text rewritten by ctrl_char_insert, style `format`:
+  --   t|f  ok|ValueError|TypeError|KeyError|IndexError|AttributeError|OverflowError|unmodelled
+  --   (IndexError never appears: FormatterFactory turns it into ValueError; unmodelled = the model abstains, reported with f)
+  | .list [.atom "logsfmt", .str raw] =>
+    (st, .list [ofBool (LogStrFormat.acceptsStrFormatConfigured raw),
+                match LogStrFormat.loadCheckStrFormat (LogFormat.ctrlCharInsert raw) with
+                | .ok _ => .atom "ok"
+                | .error .valueError => .atom "ValueError" | .error .typeError => .atom "TypeError"
+                | .error .keyError => .atom "KeyError" | .error .indexError => .atom "IndexError"
+                | .error .attributeError => .atom "AttributeError" | .error .overflowError => .atom "OverflowError"
+                | .error .unmodelled => .atom "unmodelled"])
   | .list [.atom "ping"] => (st, .atom "pong")
   | _ => (st, .list [.atom "bad-request"])
 
